@@ -364,7 +364,9 @@ fn main() {
             let mut hist = vec![cur];
             for _ in 0..6 {
                 let k = rng.range_i64(-40, 40) as i32;
-                let f = rec.cvt(2f64.powi(k) * (1.0 + rng.f64_unit()));
+                // every other factor is an exact power of two (the product then keeps its significand and only the
+                // exponent moves - straight onto the overflow / underflow thresholds)
+                let f = rec.cvt(2f64.powi(k) * if rng.chance(1, 2) { 1.0 } else { 1.0 + rng.f64_unit() });
                 cur = rec.bin(if rng.chance(1, 3) { "div" } else { "mul" }, cur, f);
                 hist.push(cur);
                 if rng.chance(1, 2) {
@@ -375,6 +377,51 @@ fn main() {
                     rec.un("abs", cur);
                 }
                 rec.back(cur);
+            }
+        }
+        // (4b) products that land exactly on the largest binade and on the first one that no longer exists: x * 2^k for
+        // x in [1, 2) and the running exponent walking 16380 .. 16386 (and the mirror image at the bottom)
+        for it in 0..(if thorough { 4000 } else { 300 }) {
+            let up = it % 2 == 0;
+            let x = match it % 3 {
+                0 => 1.0,
+                1 => 1.75,
+                _ => 1.0 + rng.f64_unit(),
+            } * if rng.chance(1, 4) { -1.0 } else { 1.0 };
+            let mut cur = rec.cvt(x);
+            let big = rec.cvt(p2(if up { 1023 } else { -1022 }));
+            for _ in 0..16 {
+                cur = rec.bin(if rng.chance(1, 8) { "mul=" } else { "mul" }, cur, big);
+            }
+            // cur = x * 2^(+-16368 / 16352): single binary steps across the threshold
+            let two = rec.cvt(if up { 2.0 } else { 0.5 });
+            let many = if up { 20 } else { 110 };
+            for _ in 0..many {
+                cur = rec.bin("mul", cur, two);
+                rec.back(cur);
+            }
+            rec.un("abs", cur);
+        }
+        // (5) half-ulp boundaries of sums: a = +-2^k * ma, b = +-2^(k-g) * mb with the gap g around the significand width.
+        // Just below a power of two the spacing halves, so |b| = 0.75 ulp below 2^k rounds differently from above it.
+        let mas = [1.0f64, 1.0 + f64::EPSILON, 1.5, 2.0 - f64::EPSILON];
+        let mbs = [1.0f64, 1.25, 1.5, 1.75, 1.0 + f64::EPSILON, 2.0 - f64::EPSILON];
+        for &k in &[-900i32, -64, -1, 0, 1, 52, 63, 64, 65, 66, 100, 900] {
+            for &ma in &mas {
+                for g in 60..=68i32 {
+                    for &mb in &mbs {
+                        for sa in [1.0f64, -1.0] {
+                            for sb in [1.0f64, -1.0] {
+                                let (a, b) = (rec.cvt(sa * ma * p2(k)), rec.cvt(sb * mb * p2(k - g)));
+                                rec.bin("add", a, b);
+                                rec.bin("sub", a, b);
+                                rec.bin("add", b, a);
+                                rec.bin("add=", a, b);
+                                rec.bin("sub=", b, a);
+                            }
+                        }
+                    }
+                }
             }
         }
         boundary_events
